@@ -26,7 +26,7 @@ META = dict(
               "they have no numeric input); weight(): degree 0..3, 1..4 symbolic weights; affine maps and invariance: "
               "degree 0..3, <=2 interior knots (sampled patterns), symbolic t, u, s>0, a, P; FP: normalize() of [a,a,b,b] and "
               "[a,b] over all doubles 2^-500 <= |x| <= 2^500 taking the seed path",
-        thorough="generators up to npts 40 (uniform/float up to 400); invariance with all patterns of degree <= 3",
+        thorough="generators up to npts 40 (uniform up to 400 for float, 120 for int/Fraction); invariance with all patterns of degree <= 3",
     ),
     assumptions=["real arithmetic in the S-mode parts; IEEE-754 binary64 round-to-nearest in the FP part",
                  "np.random.randint replaced by fixed draws (including the extreme draws 1 and 999)",
@@ -41,7 +41,7 @@ def configs(tier, seed):
     nmax = 12 if tier == "quick" else 40
     for cls in ("int", "float", "Fraction"):
         cfgs.append(dict(name=f"generators cls={cls}", kind="gen", cls=cls, pmax=4, nmax=nmax,
-                         umax=64 if tier == "quick" else 400))
+                         umax=64 if tier == "quick" else (400 if cls == "float" else 120)))
     cfgs.append(dict(name="random stubbed draws", kind="random"))
     for p in range(0, 4):
         for k in range(1, 5):
